@@ -2,6 +2,7 @@ import CTV.Lemmas.DerLax
 import CTV.Lemmas.DerTotal
 import CTV.Lemmas.DerHeader
 import CTV.Gen.Asn1Lax
+import CTV.Lemmas.DerMarshal
 /-!
 # C10 — The ASN.1 fork is as strict as upstream; lax mode only adds acceptances
 
@@ -183,15 +184,33 @@ theorem marshal_parse_element (d : Dialect) (hd : d.b128min = true) (bs : Bytes)
 example : parseTagLen Dialect.upstream [0xbf, 0x87, 0x68, 0x82, 0x01, 0x00, 0xAA] = .ok (⟨2, 1000, 256, true⟩, [0xAA]) ∧
     encTagLen ⟨2, 1000, 256, true⟩ = [0xbf, 0x87, 0x68, 0x82, 0x01, 0x00] := ⟨rfl, rfl⟩
 
-/- FULL: marshal_parse —
-     parseField d .canon t p bs = .ok (v, rest) → ∃ enc, marshalField d t p v = .ok enc ∧ bs = enc ++ rest
-   for every `t p bs d`. Proved so far: the header part above (`marshal_parse_header`, `marshal_parse_element`, with the length and
-   base-128 round trips in `CTV/Lemmas/DerHeader.lean`). Missing: the content round trips of INTEGER (`intBytes (intOfBytes c) = c`
-   for minimal `c`) and OBJECT IDENTIFIER, the case analysis matching `makeField`'s class/tag choice with `parseField`'s expectation
-   under `canonParams`, and the recursion through struct fields / slice elements (the two passes of `parseSequenceOf` tile the
-   content). Until then the clause is checked by evaluation on every accepted input of every run: `ctvmodel C10` computes the
-   Canon recogniser and the model's `marshalField` and answers `MODEL-CANON-BROKEN` if a canon-accepted input does not re-marshal to
-   the consumed octets (never, over 3 M lines per thorough run), and the model's re-marshalled octets are compared with Go's. -/
+/-- **marshal_parse.** For every target type (all kinds of `ATy` incl. `time.Time`, structs with and without RawContent, slices,
+nested to any depth), every field-parameter record, every dialect and every input: if the input is accepted in `canon` mode — strict DER
+in the form `Marshal` itself produces for the type — then marshalling the decoded value gives back exactly the octets that were
+consumed, and what was not consumed is the remainder. (`Canon` has no `interface{}` targets: for those the premise is never true.)
+
+That `canon` mode accepts exactly the inputs on which the real `Marshal(Unmarshal(x))` reproduces `x` is checked against the fork on
+every run (the `c` lines of the harness: 0 disagreements over 10⁴ quick / 10⁶ thorough inputs). -/
+theorem marshal_parse (d : Dialect) (t : ATy) (p : FP) (bs : Bytes) (v : AVal) (rest : Bytes)
+    (h : parseField d .canon t p bs = .ok (v, rest)) :
+    ∃ enc, marshalField d t p v = .ok enc ∧ bs = enc ++ rest :=
+  marshal_parse_field d t p bs v rest h
+
+/-- content round trips of the primitive kinds, as corollaries used above (each for every accepted content) -/
+theorem marshal_parse_primitives :
+    (∀ c b, parseBool c = .ok b → encBool b = c) ∧
+    (∀ c i, parseInt64 false c = .ok i → intBytes i = c) ∧ (∀ c i, parseInt32 false c = .ok i → intBytes i = c) ∧
+    (∀ c i, parseBigInt false c = .ok i → intBytes i = c) ∧
+    (∀ c b, parseBitString c = .ok b → encBitString b = c) ∧
+    (∀ (d : Dialect), d.b128min = true → ∀ c arcs, parseOID d false c = .ok arcs → encOID arcs = .ok c) :=
+  ⟨parseBool_roundtrip, parseInt64_roundtrip, parseInt32_roundtrip, parseBigInt_roundtrip, parseBitString_roundtrip,
+   fun d hd c arcs h => parseOID_roundtrip d hd c arcs h⟩
+
+/- FULL (still open, the converse direction): parse_marshal —
+     WfVal t p v → marshalField d t p v = .ok b → parseField d .canon t p (b ++ rest) = .ok (v, rest)
+   i.e. `Canon` contains everything `Marshal` writes (non-vacuity of `Canon` independent of the parser). Not proved; what stands in
+   for it: the `c` lines (the implementation's Marshal∘Unmarshal is exact ⇔ the model's `canon` accepts), and
+   canon_sub_strict: parseField d .canon t p bs = .ok x → parseField d .strict t p bs = .ok x, likewise checked by those lines only. -/
 
 -- an instance: strict DER for a struct with an optional defaulted field, an explicit tag and a SET OF; Canon accepts, marshal reproduces
 example :
